@@ -4,8 +4,9 @@ set -e
 cd "$(dirname "$0")"
 export CARGO_NET_OFFLINE=true
 python3 translator/extract.py /repo lean/SlicecVerif/Gen
-(cd lean && lake build SlicecVerif drv)
+# the library root imports every property file, so one `lake build` checks everything
+(cd lean && { for f in SlicecVerif/Props/*.lean; do echo "import SlicecVerif.Props.$(basename "$f" .lean)"; done; } > SlicecVerif.lean && lake build SlicecVerif drv) > .setup-lake.log 2>&1 || { tail -40 .setup-lake.log; exit 1; }
 mkdir -p .build && cp lean/.lake/build/bin/drv .build/drv.good
-(cd harness && cargo build --offline)
-RUSTFLAGS="--cfg slicec_verif" cargo build --offline --manifest-path /repo/Cargo.toml -p slicec --bin slicec --target-dir .build/repo-target
+(cd harness && cargo build --offline) 2>&1 | tail -3
+RUSTFLAGS="--cfg slicec_verif" cargo build --offline --manifest-path /repo/Cargo.toml -p slicec --bin slicec --target-dir .build/repo-target 2>&1 | tail -2
 echo setup-ok
